@@ -231,9 +231,19 @@ Proof.
   destruct (struct_unpack _ p) as [l|e]; [|reflexivity]. cbn [bind]. cbv zeta. rewrite src_ipv6_packed_to_int_loop_ok. reflexivity.
 Qed.
 
+(* ---------------------------------------------------------------- bytes_to_bits(): the table, by evaluation *)
+(* 256 rows x 8 item assignments, no parameters: the generated definition is a closed term *)
+Lemma src_bytes_to_bits_ok : src_strategy_bytes_to_bits = Ok py_BYTES_TO_BITS.
+Proof. vm_compute. reflexivity. Qed.
+
+Lemma src_bytes_to_bits_model : src_strategy_bytes_to_bits = Ok (map (fun n => str_of (byte_bits (Z.of_nat n))) (seq 0 256)).
+Proof. rewrite src_bytes_to_bits_ok. unfold py_BYTES_TO_BITS. rewrite gen_bytes_to_bits_ok. reflexivity. Qed.
+
 (* everything the second C15 source tie states (Props/C15_src_ip.v) *)
 Lemma C15_tie_ip_ok :
   (forall v ws nw sep, 0 <= ws -> 0 <= nw -> src_strategy_int_to_bits v ws nw sep = int_to_bits v ws nw sep) /\
+  (src_strategy_bytes_to_bits = Ok py_BYTES_TO_BITS /\
+   src_strategy_bytes_to_bits = Ok (map (fun n => str_of (byte_bits (Z.of_nat n))) (seq 0 256))) /\
   (find_dialect "ipv4"%string ""%string = Some row4 /\ find_dialect "ipv6"%string ""%string = Some row6) /\
   (* ipv4.py *)
   ((forall words, src_ipv4_valid_words words = Ok (valid_words words (d_ws row4) (d_nw row4))) /\
@@ -262,7 +272,8 @@ Lemma C15_tie_ip_ok :
    (forall v, src_ipv6_int_to_packed v = m_int_to_packed "ipv6"%string row6 v) /\
    (forall p, src_ipv6_packed_to_int p = m_packed_to_int "ipv6"%string p)).
 Proof.
-  split; [exact src_int_to_bits_ok|]. split; [split; [exact find_row4|exact find_row6]|]. split.
+  split; [exact src_int_to_bits_ok|]. split; [split; [exact src_bytes_to_bits_ok|exact src_bytes_to_bits_model]|].
+  split; [split; [exact find_row4|exact find_row6]|]. split.
   - split; [exact src_ipv4_valid_words_ok|]. split; [exact src_ipv4_int_to_words_ok|]. split; [exact src_ipv4_words_to_int_ok|].
     split; [exact src_ipv4_valid_bits_ok|]. split; [exact src_ipv4_bits_to_int_ok|]. split; [exact src_ipv4_int_to_bits_ok|].
     split; [exact src_ipv4_valid_bin_ok|]. split; [exact src_ipv4_int_to_bin_ok|]. split; [exact src_ipv4_bin_to_int_ok|].
